@@ -30,6 +30,7 @@ type Obligation struct {
 	Result  *ObResult
 	Failure string // engine-level failure (unsupported construct on a path)
 	smts    []string
+	variants [][]string
 	trivial bool
 }
 
@@ -393,7 +394,7 @@ func (v *Verifier) jump(st *State, b *ssa.BasicBlock) bool {
 			And(Ge(ci.measure, IntLit(0)), Lt(m, ci.measure)), false)
 	}
 	// loop frame: heaps not named in modifies must be unchanged on old cells
-	v.frameCheck(st, ci.heap, st.allocd[ci.nAlloc:], ci.lwAt, spec.Modifies, fr, "frame:"+name)
+	v.frameCheck(st, ci.heap, st.allocd[ci.nAlloc:], ci.lwAt, spec.Modifies, fr, "frame:"+name, false)
 	return false
 }
 
@@ -405,6 +406,16 @@ func (v *Verifier) havocNamed(st *State, fr *Frame, name string) {
 		f := Fresh(name, cell)
 		for _, t := range typeInv(f, elemType(a.Type()), 0) {
 			st.assume(t)
+		}
+		st.setHeap(cell, Store(st.getHeap(cell), ref, f))
+		return
+	}
+	if cell, ref, et, ok := evalModTarget(v.specEnv(st, fr), name); ok {
+		f := Fresh("cell", cell)
+		if et != nil {
+			for _, t := range typeInv(f, et, 0) {
+				st.assume(t)
+			}
 		}
 		st.setHeap(cell, Store(st.getHeap(cell), ref, f))
 		return
@@ -500,7 +511,7 @@ func (v *Verifier) cellSortByName(pkg0 *types.Package, name string) *Sort {
 }
 
 // frameCheck emits frame obligations for heaps changed relative to base.
-func (v *Verifier) frameCheck(st *State, base map[string]*Term, fresh []*Term, lwAt *Term, allowed []string, fr *Frame, obName string) {
+func (v *Verifier) frameCheck(st *State, base map[string]*Term, fresh []*Term, lwAt *Term, allowed []string, fr *Frame, obName string, atEntry bool) {
 	allow := map[string]bool{}
 	cells := map[string][]*Term{}
 	for _, a := range allowed {
@@ -525,6 +536,18 @@ func (v *Verifier) frameCheck(st *State, base map[string]*Term, fresh []*Term, l
 		}
 		if isParam {
 			continue
+		}
+		{
+			var env *SpecEnv
+			if atEntry && v.entry != nil && len(st.frames) == 1 {
+				env = v.entryEnv()
+			} else {
+				env = v.specEnv(st, fr)
+			}
+			if cell, ref, _, ok := evalModTarget(env, a); ok {
+				cells[heapName(cell)] = append(cells[heapName(cell)], ref)
+				continue
+			}
 		}
 		allow[heapName(v.cellSortByName(v.pkgOf(fr.fn), a))] = true
 	}
